@@ -250,7 +250,24 @@ where
         // Self-remove proposals never generate welcomes (only Add proposals do),
         // so we can safely ignore the welcome output here
         let (commit_message, _welcomes, _group_info) =
-            mls_group.commit_to_pending_proposals(&self.provider, &mls_signer)?;
+            match mls_group.commit_to_pending_proposals(&self.provider, &mls_signer) {
+                Ok(commit) => commit,
+                Err(e) => {
+                    // This admin cannot commit right now (it holds a pending commit of its own, or
+                    // its own removal is queued). The proposal has been stored above: report it as
+                    // pending, like a non-admin receiver does, instead of refusing an event that
+                    // has changed the proposal queue.
+                    tracing::debug!(
+                        target: "mdk_core::messages::process_proposal",
+                        "Could not auto-commit self-remove proposal, keeping it pending: {}",
+                        e
+                    );
+                    self.mark_processed(event, group_id, mls_group.epoch().as_u64())?;
+                    return Ok(MessageProcessingResult::PendingProposal {
+                        mls_group_id: group_id.clone(),
+                    });
+                }
+            };
 
         let serialized_commit_message = commit_message
             .tls_serialize_detached()
